@@ -26,6 +26,9 @@ using img_t = gil::image<PIX, false>;
 
 extern "C" void h_read(void) {
     file_builder f((unsigned long)vp_param(0));
+#if CONCRETE_REST   /* every byte the builder does not set is zero: the file is fully concrete */
+    for (unsigned long i = 0; i < f.L; ++i) f.d[i] = 0;
+#endif
     make_file(f);
     int outcome = 0;
     {
